@@ -525,6 +525,10 @@ class Escape:
             # element of filter(None, ...) is a non-empty string
             if isinstance(base, ast.Name) and self._drawn_from_filter_none(base.id, f):
                 return "element drawn from filter(None, ...) is non-empty"
+            if isinstance(base, ast.Name) and f.param(base.id) is not None:
+                srcs = self.inf.param_args(f, base.id)
+                if srcs and all(isinstance(a, ast.Name) and isinstance(sc, Func) and self._drawn_from_filter_none(a.id, sc) for sc, a in srcs):
+                    return "every caller passes an element drawn from filter(None, ...) (non-empty)"
             # split() always returns at least one element
             if isinstance(base, ast.Call) and isinstance(base.func, ast.Attribute) and base.func.attr in ("split", "rsplit", "partition"):
                 return "str.split() returns at least one element"
